@@ -3,7 +3,7 @@
    division by zero or an out-of-range internal array index; these theorems say it never does on
    admissible inputs.  (Each also follows from the refinement theorems of C01/C02/C05/C07.) *)
 From Coq Require Import ZArith List.
-From MdspanVerif Require Import MachInt ListAux Layouts LayoutSpec LayoutProofs LayoutTheorems FlagProofs View.
+From MdspanVerif Require Import MachInt ListAux Layouts LayoutSpec LayoutProofs LayoutTheorems FlagProofs View Extents ExtentsProofs Convert ConvertProofs Submdspan SubSpec SubProofs.
 Import ListNotations.
 Local Open Scope Z_scope.
 
@@ -61,3 +61,37 @@ Theorem C14_default_stride : forall (t : ity) (es : list Z), admissible t es ->
   default_stride_strides t es = Ok (spec_strides (MRight es)).
 Proof. exact default_stride_thm. Qed.
 Print Assumptions C14_default_stride.
+
+(* submdspan_mapping / submdspan_extents: defined for every valid source (layout_left, layout_right,
+   layout_stride) and every valid slice combination whose components are representable - including
+   empty slices that start at the end of an extent and strided slices with strides larger than the
+   extent; the sub-stride products are representable as a consequence of validity *)
+Theorem C14_submdspan : forall (t : ity) (src : mapping) (pat : pattern) (sls : list slice),
+  valid t src -> sub_kind_ok src = true ->
+  valid_slices sls (dims src) -> Forall (slice_rep t) sls -> pat_ok t pat (exts src) ->
+  exists m' off, submap t src pat sls = Ok (m', off) /\ 0 <= off.
+Proof. exact submap_defined. Qed.
+Print Assumptions C14_submdspan.
+
+Theorem C14_substrides_representable : forall (t : ity) (src : mapping) (sls : list slice),
+  valid t src -> sub_kind_ok src = true -> valid_slices sls (dims src) ->
+  Forall (fun d => snd d <= imax t) (sub_dims sls (dims src)).
+Proof. exact sub_strides_fit. Qed.
+Print Assumptions C14_substrides_representable.
+
+(* the mapping conversions: defined whenever the conversion's precondition holds (C08_conv_correct
+   gives an Ok result), and the debug-mode stride check never overflows before it aborts *)
+Theorem C14_conversion : forall (ts : ity) (src : mapping) (tgt : mtype) (m' : mapping),
+  valid ts src -> valid (mt_t tgt) m' ->
+  kind_of m' = mt_kind tgt -> conv_exists src (mt_kind tgt) = true ->
+  exts m' = exts src -> spec_strides m' = spec_strides src ->
+  conv_pre (mt_t tgt) (mt_pat tgt) (exts src) -> pad_ok tgt m' ->
+  conv_mapping ts src tgt = Ok m'.
+Proof. exact conv_correct. Qed.
+Print Assumptions C14_conversion.
+
+Theorem C14_debug_check : forall (left : bool) (ts tt : ity) (es ss : list Z),
+  es <> [] -> length ss = length es -> admissible tt es -> nonneg_in ts ss ->
+  exists b, stride_check left ts tt es ss = Ok b.
+Proof. intros. eexists. apply stride_check_thm; auto. Qed.
+Print Assumptions C14_debug_check.
